@@ -27,7 +27,7 @@ ZTOL = 1e-8          # sample(0) vs smoothing means (relative to |mean| + std)
 RTOL = 1e-7          # implementation vs model (relative to |value| + std)
 GTOL = 1e-5          # Gram matrix vs joint covariance (relative to sd_i sd_j)
 SHAPES = [[], [2], [2, 3]]
-FULL_COST = 2500     # n^3 T^2 per block up to which ALL unit draws are evaluated in the model
+FULL_COST = 1500     # n^3 c T^2 per block up to which ALL unit draws are evaluated in the model
 
 
 # ------------------------------------------------------------------ generation
